@@ -14,13 +14,14 @@ EXPECT = {
     "idpool": "duplicates=0 out-of-range=0 free-at-end=4000",
     "ackq": "resolved-twice=0 unresolved=0",
     "tries": "missing-in-subscription-index=0 missing-in-retained-store=0",
-    "dist": "sessions-missing=0 subscriptions-missing=0 retained-missing=0 replica-sessions-missing=0 replica-subscriptions-missing=0 replica-retained-missing=0",
+    "dist": "sessions-missing=0 subscriptions-missing=0 retained-missing=0 replica-sessions-missing=0 replica-subscriptions-missing=0 replica-retained-missing=0 same-key-writers-diverged=0",
     "registry": "registry-missing=0 leftover-filters=0",
+    "hotkey": "same-key-writers-diverged=0",
 }
 
 
 def main(tier=None):
-    c = Check("C20", ["Wasp.Properties.C20", "Wasp.Properties.C20Table", "Wasp.Properties.Facts.C20"], tier)
+    c = Check("C20", ["Wasp.Properties.C20", "Wasp.Properties.C20Table", "Wasp.Properties.C20Lift", "Wasp.Properties.Facts.C20"], tier)
     c.build()
     race_ok = c.build_race_harness()
     ms = 700 if c.tier == "quick" else 6000
